@@ -7,7 +7,7 @@ width make `struct` raise OverflowError (the property excludes those inputs).
 Options: non-strict mode here; the strict clauses are separate behaviours (C10).
 """
 from pyvc.contracts import target, R, implies
-from pyvc.specs import seq_items
+from pyvc.dsl import seq_items
 import spec.core as S
 import spec.avro as A
 
